@@ -310,6 +310,7 @@ def cfg_eliminate_unit_rules_in_place(G: CFG) -> None:
     V = G.V
     R1 = R.copy()
 
+    if _verif.ON: V = _verif.ordered('unit.var', V)
     for A in V:
         if _verif.ON: _verif.emit('unit.var', A=str(A))
         W = cfg_derivable_variables(G, A)
